@@ -1541,8 +1541,7 @@ def c08(res, tier, seed, lib):
         if lines and lines[-1] == "":
             lines.pop()
         res.check(rc == 0 and len(lines) == n, "gradient-prints-exactly-N", "cli:gradient", inp, "rc=%s %d lines" % (rc, len(lines)))
-        eight = lambda t: not (t.startswith("hsl") or t.startswith("lab"))
-        if lines and eight(texts[0]) and eight(texts[-1]):
+        if lines:    # (any colour: since f892f2c a sample exactly on a stop is the stop itself)
             res.check(lines[0] == inf[0].hsl and lines[-1] == inf[-1].hsl, "gradient-endpoints-are-c1-ck", "cli:gradient", inp, "%s .. %s vs %s .. %s" % (lines[0], lines[-1], inf[0].hsl, inf[-1].hsl))
         ops.append("gradient %s %d %d %s" % (sp, n, k, " ".join(i.wire for i in inf)))
         meta.append((inp, out))
